@@ -6,6 +6,21 @@ use libfuzzer_sys::fuzz_target;
 use peppi::io::slippi::de::{self, Opts};
 use std::io::{Cursor, Read};
 
+/// Formats every log record and drops it, so that log-macro arguments inside the
+/// library are evaluated while fuzzing.
+struct DiscardLogger;
+impl log::Log for DiscardLogger {
+	fn enabled(&self, _: &log::Metadata) -> bool {
+		true
+	}
+	fn log(&self, record: &log::Record) {
+		let _ = format!("{}", record.args());
+	}
+	fn flush(&self) {}
+}
+static LOGGER: DiscardLogger = DiscardLogger;
+static INIT: std::sync::Once = std::sync::Once::new();
+
 fn incremental(data: &[u8]) -> Option<()> {
 	let mut r = Cursor::new(data);
 	let raw_len = de::parse_header(&mut r, None).ok()?;
@@ -29,6 +44,11 @@ fn incremental(data: &[u8]) -> Option<()> {
 }
 
 fuzz_target!(|data: &[u8]| {
+	INIT.call_once(|| {
+		let _ = log::set_logger(&LOGGER);
+	});
+	// logging on for inputs of odd length, off for even ones
+	log::set_max_level(if data.len() % 2 == 1 { log::LevelFilter::Trace } else { log::LevelFilter::Off });
 	for (skip, hash) in [(false, false), (true, true), (true, false), (false, true)] {
 		let opts = Opts { skip_frames: skip, compute_hash: hash, debug: None };
 		let _ = peppi::io::slippi::read(Cursor::new(data), Some(&opts));
